@@ -239,6 +239,18 @@ theorem C04_renumber_qudits_conjugates {M : Type} [Monoid M] (sem : Op → M)
       den sem (c.renumber perm).1.iter = act (den sem c.iter) :=
   renumber_conjugates sem hcomm act h1 hmul c perm hinv hok hsem
 
+/-- … and `insert_qudit(k, radix)` (the branch shifting the qudits from `k` on): the new circuit
+denotes `act` of the old denotation for the shift relabelling. -/
+theorem C04_insert_qudit_conjugates {M : Type} [Monoid M] (sem : Op → M)
+    (hcomm : ∀ a b, Indep a b → sem a * sem b = sem b * sem a) (act : M → M) (h1 : act 1 = 1)
+    (hmul : ∀ a b, act (a * b) = act a * act b) (c : Circ) (qi r : Int) (hinv : c.Inv)
+    (hr : ¬ r < 2) (hq : ¬ qi ≥ (c.numQudits : Int))
+    (hsem : ∀ o, sem (o.relabel (fun q =>
+      if q < (if qi ≤ -(c.numQudits : Int) then 0 else normIdx c.numQudits qi) then q else q + 1)) =
+        act (sem o)) :
+    den sem (c.insertQudit qi r).1.iter = act (den sem c.iter) :=
+  insertQudit_conjugates sem hcomm act h1 hmul c qi r hinv hr hq hsem
+
 -- non-vacuity: the hypotheses on (sem, act) are satisfiable in every monoid; a valid permutation
 example {M : Type} [Monoid M] :
     let sem : Op → M := fun _ => 1
